@@ -776,8 +776,10 @@ Proof.
     cbn [andb]. destruct (_ && _); reflexivity.
 Qed.
 
-(* ================= corollaries kept from before the repair of F-C05-1 ================= *)
-(* (the hypothesis on the host is no longer needed) *)
+(* ================= SUPERSEDED, kept for name stability only =================
+   [del_precise_ci_on_domain] and [weight_only_matching_ci_on_domain] predate the repair of F-C05-1;
+   their host hypothesis is unused, they are instances of [del_precise] / [weight_only_matching]
+   and are not property theorems. *)
 Theorem del_precise_ci_on_domain canon t d t' :
   inv t -> del_route canon t d = Ok t' ->
   lower (fst (hostpath (d_src d))) = fst (hostpath (d_src d)) ->
